@@ -25,18 +25,25 @@ def _num(x):
     return repr(float(x))
 
 
-def generic(x):
+def generic(x, memo=None):
+    """`memo` (id -> result) makes a shared object be walked once; the result is then a DAG of shared dicts"""
     from pydantic import BaseModel
+    if memo is None:
+        memo = {}
     if isinstance(x, BaseModel):
+        if id(x) in memo:
+            return memo[id(x)][1]
         cls = type(x)
         if cls.__name__ == "Term":
-            return {"~term": getattr(x, "label", MISSING)}
-        out = {"~class": cls.__name__}
-        for f in cls.model_fields:
-            out[f] = generic(getattr(x, f, MISSING))
+            out = {"~term": getattr(x, "label", MISSING)}
+        else:
+            out = {"~class": cls.__name__}
+            for f in cls.model_fields:
+                out[f] = generic(getattr(x, f, MISSING), memo)
+        memo[id(x)] = (x, out)          # keep `x` alive so that its id is not reused during the walk
         return out
     if isinstance(x, enum.Enum):
-        return generic(x.value)
+        return generic(x.value, memo)
     if x is None or isinstance(x, bool):
         return x
     if isinstance(x, str):
@@ -44,30 +51,44 @@ def generic(x):
     if isinstance(x, (int, float)):
         return _num(x)
     if isinstance(x, (list, tuple)):
-        return [generic(v) for v in x]
+        return [generic(v, memo) for v in x]
     if isinstance(x, dict):
-        return {str(k): generic(v) for k, v in x.items()}
+        return {str(k): generic(v, memo) for k, v in x.items()}
     if isinstance(x, (datetime.datetime, datetime.date, datetime.time)):
         return x.isoformat()
     if isinstance(x, (_uuid.UUID, PurePath)):
         return str(x)
     if isinstance(x, (set, frozenset)):
-        return sorted((generic(v) for v in x), key=repr)
+        return sorted((generic(v, memo) for v in x), key=repr)
     try:                                   # numpy scalars and the like
         return _num(x)
     except Exception:  # noqa: BLE001
         return repr(x)
 
 
-def gdiff(a, b, path="obj"):
-    """first difference between two `generic` values: None | message `path: expected … , observed …`"""
+def gdiff(a, b, path="obj", same=None):
+    """first difference between two `generic` values: None | message `path: original … , after the round trip …`
+    (`same` remembers pairs of shared sub-values already found equal)"""
+    if same is None:
+        same = set()
+    if isinstance(a, (dict, list)):
+        if (id(a), id(b)) in same:
+            return None
+        r = _gdiff(a, b, path, same)
+        if r is None:
+            same.add((id(a), id(b)))
+        return r
+    return _gdiff(a, b, path, same)
+
+
+def _gdiff(a, b, path, same):
     if isinstance(a, dict) and isinstance(b, dict):
         if a.get("~class") != b.get("~class"):
             return f"{path}: an object of class {b.get('~class')} where the original has {a.get('~class')}"
         for k in a:
             if k not in b:
                 return f"{path}.{k}: missing after the round trip"
-            r = gdiff(a[k], b[k], f"{path}.{k}")
+            r = gdiff(a[k], b[k], f"{path}.{k}", same)
             if r:
                 return r
         for k in b:
@@ -78,7 +99,7 @@ def gdiff(a, b, path="obj"):
         if len(a) != len(b):
             return f"{path}: {len(a)} element(s) in the original, {len(b)} after the round trip"
         for i, (x, y) in enumerate(zip(a, b)):
-            r = gdiff(x, y, f"{path}[{i}]")
+            r = gdiff(x, y, f"{path}[{i}]", same)
             if r:
                 return r
         return None
